@@ -262,6 +262,36 @@ func c13Scenarios(tier string) []*Scenario {
 			scs = append(scs, mk(v.n+"/pair/"+ops[pr[0]].n+"+"+ops[pr[1]].n, []nop{ops[pr[0]], ops[pr[1]]}, prefix, v.cfg, o2))
 		}
 	}
+	// no retention rule anywhere, and a pipeline that a reload has dropped while it still has jobs: the save that purges
+	// them against readers and other savers
+	{
+		p := PipeCfg{Conc: 1, QL: -1, Graph: graphChain}
+		z := PipeCfg{Conc: 1, QL: -1, Graph: graphOne}
+		withP := mkDefs(map[string]PipeCfg{"p": p, "z": z})
+		withoutP := mkDefs(map[string]PipeCfg{"z": z})
+		pre := []XEvent{{Kind: "S", P: "p"}, {Kind: "Dok", Job: 1, Task: "a"}, {Kind: "Dok", Job: 1, Task: "b"}, {Kind: "S", P: "p"}, {Kind: "S", P: "p"}, {Kind: "R", Def: 1}}
+		for _, pr := range [][2]int{{6, 3}, {6, 4}, {6, 6}, {6, 2}, {6, 1}} {
+			sel := []nop{ops[pr[0]], ops[pr[1]]}
+			scs = append(scs, &Scenario{
+				Name: "dropped-pipeline/pair/" + sel[0].n + "+" + sel[1].n,
+				Desc: "no retention rule; pipeline p (one finished, one running, one waiting job) was dropped by a reload; concurrent API callers",
+				Opts: func() WorldOpts {
+					return WorldOpts{Defs: []*definitionPipelinesDef{withP, withoutP}, WithStore: true, RealStore: c13Store()}
+				},
+				Prefix: pre,
+				Setup: func(w *World) {
+					w.Accepted = 3
+					for _, o := range sel {
+						w.SpawnDriver(o.op)
+					}
+				},
+				Check: func(w *World, x *Exec) []Violation {
+					f := buildFacts(w.Log, w.lastDump)
+					return monStruct(f)
+				},
+			})
+		}
+	}
 	// a pending start timer
 	dcfg := PipeCfg{Conc: 1, QL: -1, Graph: graphOne, Delay: dly, RetCount: 1}
 	dother := dcfg
